@@ -40,6 +40,23 @@ def _seq_fields(node: ast.expr, selfname: str, env) -> Optional[List[Tuple[str, 
                 return None
             out.append(f)
         return out
+    if isinstance(node, ast.BinOp) and isinstance(node.op, ast.Add):
+        left, right = _seq_fields(node.left, selfname, env), _seq_fields(node.right, selfname, env)
+        return None if left is None or right is None else left + right
+    if isinstance(node, (ast.ListComp, ast.GeneratorExp)) and len(node.generators) == 1 and not node.generators[0].ifs and isinstance(node.generators[0].target, ast.Name):
+        # [wrap(getattr(self, name)) for name in <tuple of constant attribute names>]
+        gen = node.generators[0]
+        it = gen.iter
+        if isinstance(it, ast.Name) and it.id in env:
+            it = env[it.id]
+        if isinstance(it, (ast.Tuple, ast.List)) and it.elts and all(isinstance(e, ast.Constant) and isinstance(e.value, str) for e in it.elts):
+            elt = node.elt
+            wr = []
+            while isinstance(elt, ast.Call) and isinstance(elt.func, (ast.Name, ast.Attribute)) and len(elt.args) == 1 and not elt.keywords and unparse(elt.func) != "getattr":
+                wr.append(unparse(elt.func))
+                elt = elt.args[0]
+            if isinstance(elt, ast.Call) and unparse(elt.func) == "getattr" and len(elt.args) == 2 and isinstance(elt.args[0], ast.Name) and elt.args[0].id == selfname and isinstance(elt.args[1], ast.Name) and elt.args[1].id == gen.target.id:
+                return [(e.value, list(wr)) for e in it.elts]
     if isinstance(node, (ast.ListComp, ast.GeneratorExp)) and len(node.generators) == 1 and not node.generators[0].ifs:
         gen = node.generators[0]
         inner = _seq_fields(gen.iter, selfname, env)
@@ -161,7 +178,8 @@ def encode_template(analysis: Analysis):
     info = analysis.p.func("message:Message.encode")
     fn = info.node
     selfname = fn.args.args[0].arg
-    env = _local_assigns(fn)
+    env = dict(info.module.assigns)
+    env.update(_local_assigns(fn))
     rets = [n for n in ast.walk(fn) if isinstance(n, ast.Return)]
     templ = None
     none_returns = 0
